@@ -184,6 +184,29 @@ func (e *c06ex) Exec(op string) string {
 		}
 		e.swaps[w[1]] = id
 		return "ok"
+	case "swapanswerf":
+		// the robot's answer to a swap that brings a *foreign* grouped token (CC_G1, of channel CC) here:
+		// nothing of this channel's token is involved; on completion the owner gets an allowed balance
+		if !need(4, 2) {
+			return "bad-op"
+		}
+		if _, dup := e.swaps[w[1]]; dup {
+			return "err"
+		}
+		amt, okn := new(big.Int).SetString(w[3], 10)
+		if !okn || amt.Sign() <= 0 {
+			return "err"
+		}
+		id := simpeer.NewTxID()
+		idb, _ := hex.DecodeString(id)
+		h := sha3.Sum256([]byte("key-" + w[1]))
+		b := e.c.ExecBatch(&fpb.Batch{Swaps: []*fpb.Swap{{Id: idb, Creator: []byte("0000"), Owner: e.u(w[2]).AddrRaw, Token: "CC_G1",
+			Amount: amt.Bytes(), From: "CC", To: "VT", Hash: h[:], Timeout: 1}}})
+		if b.Resp == nil || len(b.Resp.SwapResponses) != 1 || b.Resp.SwapResponses[0].GetError() != nil {
+			return "err"
+		}
+		e.swaps[w[1]] = id
+		return "ok"
 	case "swapuserdone":
 		if !need(2) {
 			return "bad-op"
@@ -257,10 +280,26 @@ func (e *c06ex) Exec(op string) string {
 			}
 			var r struct {
 				Amount []byte `json:"amount"`
+				Token  string `json:"token"`
 			}
-			if json.Unmarshal([]byte(p), &r) == nil {
+			// (records of a foreign token hold none of this channel's units)
+			if json.Unmarshal([]byte(p), &r) == nil && strings.Split(r.Token, "_")[0] == "VT" {
 				esc.Add(esc, new(big.Int).SetBytes(r.Amount))
 			}
+		}
+		// units of this channel's token in grouped form (none is ever emitted here), and the allowed
+		// balances of the foreign token CC_G1
+		grp := new(big.Int)
+		var al []string
+		for _, n := range []string{"u0", "u1", "u2"} {
+			p, _ := e.c.Query("industrialBalanceOf", e.u(n).Addr)
+			var m map[string]string
+			if json.Unmarshal([]byte(p), &m) == nil {
+				for _, v := range m {
+					grp.Add(grp, bigOf(v))
+				}
+			}
+			al = append(al, n+"="+q("allowedBalanceOf", e.u(n).Addr, "CC_G1"))
 		}
 		var md struct {
 			Total string `json:"total_emission"`
@@ -269,7 +308,7 @@ func (e *c06ex) Exec(op string) string {
 		if md.Total == "" {
 			md.Total = "0"
 		}
-		return fmt.Sprintf("tok:%s;lck:%s;given=%s;escrow=%s;emission=%s", strings.Join(tk, ","), strings.Join(lk, ","), given, esc.String(), md.Total)
+		return fmt.Sprintf("tok:%s;lck:%s;given=%s;escrow=%s;grp=%s;alw:%s;emission=%s", strings.Join(tk, ","), strings.Join(lk, ","), given, esc.String(), grp.String(), strings.Join(al, ","), md.Total)
 	}
 	return "bad-op"
 }
@@ -290,11 +329,11 @@ func genC06(c *Cfg, emit func([]string)) {
 			for _, g := range strings.Split(give, ";") {
 				h = append(h, g, "dump")
 			}
-			h = append(h, "swapanswer R0 u1 501", "dump", "swapanswer R1 u1 7", "dump")
+			h = append(h, "swapanswer R0 u1 501", "dump", "swapanswer R1 u1 7", "dump", "swapanswerf R4 u2 450", "dump")
 			for _, x := range closing {
 				h = append(h, x, "dump")
 			}
-			h = append(h, "chcancel T1", "dump")
+			h = append(h, "swapuserdone R4", "dump", "swapanswerf R5 u2 3", "swapcancel R5", "dump", "chcancel T1", "dump")
 			emit(h)
 		}
 	}
@@ -354,6 +393,11 @@ func genC06(c *Cfg, emit func([]string)) {
 				nrs++
 				h = append(h, fmt.Sprintf("swapanswer R%d %s %s", nrs, u, pick([]string{"1", "2", "7", amount(u), "300"})))
 			case 13:
+				if c.Rng.Intn(3) == 0 {
+					nrs++
+					h = append(h, fmt.Sprintf("swapanswerf R%d %s %s", nrs, u, pick([]string{"1", "7", "450"})))
+					break
+				}
 				h = append(h, pick([]string{fmt.Sprintf("swapuserdone R%d", 1+c.Rng.Intn(nrs+1)), fmt.Sprintf("swapuserdone S%d", 1+c.Rng.Intn(nsw+1)),
 					fmt.Sprintf("swapcancel R%d", 1+c.Rng.Intn(nrs+1))}))
 			case 11:
@@ -406,6 +450,6 @@ func genC06(c *Cfg, emit func([]string)) {
 		}
 		emit(h)
 	}
-	c.Rule = fmt.Sprintf("%d random histories of 3..%d operations through Invoke (emit, burn, transfer with and without a fee leg (fee collector among the senders), two transfers in one task list or batch, forced transfer by the admin, external lock, swap begin / cancel / robot completion, answered swaps coming home (out of the given-out counter) and their completion by key or cancel, cross-channel transfer from / cancel) over 3 accounts incl. self, amounts {0, 1, balance-1, balance, balance+1, -1, 2^64+1, random small} on funding {5, 1000, 2^128, 2^256}; after every step: all spendable and locked balances, the given-out counter, the escrow of open swaps and total_emission; non-trivial = at least one emission; distinct = sha256", nHist, maxSteps+2)
+	c.Rule = fmt.Sprintf("%d random histories of 3..%d operations through Invoke (emit, burn, transfer with and without a fee leg (fee collector among the senders), two transfers in one task list or batch, forced transfer by the admin, external lock, swap begin / cancel / robot completion, answered swaps coming home (out of the given-out counter) and their completion by key or cancel, answered swaps bringing a foreign grouped token (completion credits an allowed balance, never units of this channel), cross-channel transfer from / cancel) over 3 accounts incl. self, amounts {0, 1, balance-1, balance, balance+1, -1, 2^64+1, random small} on funding {5, 1000, 2^128, 2^256}; after every step: all spendable and locked balances, the given-out counter, the escrow of open swaps, grouped units of the own token, allowed balances of the foreign token and total_emission; non-trivial = at least one emission; distinct = sha256", nHist, maxSteps+2)
 	c.Extra = map[string]any{"histories": nHist}
 }
